@@ -442,7 +442,7 @@ theorem collect_cons_frag (st : Stmt) (rest : Block) (h : FragStmt V st) :
   | repeat_ hd body =>
     have hb := collect_frag body h.2
     simp only [Sem.collect, hb, List.nil_append]
-  | action k ops =>
+  | action k w ops =>
     have ho := collectOps_frag ops h
     simp only [Sem.collect, ho, List.nil_append]
   | _ => simp only [Sem.collect]
